@@ -590,6 +590,8 @@ def keywords_for(spec, method):
                 items.append(kws.RI(name="RIJCOSX"))     # only a name: printed verbatim
         items = [i for i in items if i is not None] + list(strs)
         kw = cls(items)
+    if spec.get("ecp_min") is not None:
+        kw.ecp = kws.ECP(name="def2-ECP", min_atomic_number=spec["ecp_min"], **{("g09" if prog == "g16" else prog): "zzecp" + str(spec["ecp_min"])})
     if spec["max_cycles"] is not None and isinstance(kw, kws.OptKeywords):
         kw.max_opt_cycles = spec["max_cycles"]
     return kw
@@ -751,6 +753,10 @@ def run_case(spec, workdir, registry=False, mol=None):
             res["rejected"] = "SolventUnavailable"
             return res
         ecp_kw = calc.input.keywords.ecp
+        if ecp_kw is not None:
+            res["ecp"] = {"min_z": int(ecp_kw.min_atomic_number),
+                          "name": getattr(ecp_kw, "g09" if spec["prog"] == "g16" and getattr(ecp_kw, "g09", None) else spec["prog"], None) or ecp_kw.name,
+                          "z": {a.label: int(a.atomic_number) for a in mol.atoms}}
         all_ecp = ecp_kw is not None and all(a.atomic_number >= ecp_kw.min_atomic_number for a in mol.atoms)
         res["kw_expected"] = expected_keyword_words(spec, calc.input.keywords, method, mol.n_atoms, res["n_heavy"] > 0, all_ecp)
         res["requested_kw"] = [repr(k) for k in calc.input.keywords]
@@ -1082,6 +1088,38 @@ def check_case(spec, res):
             F.append((f"{site}|point-charge", f"electrostatic potentials at the atoms {[float(p) for p in pots][:3]}.. differ from sum q/r {want[:3]}.."))
         if "QMMM" not in res["files"][res["main"]].split("\n")[0].split():
             F.append((f"{site}|point-charge", "QMMM keyword missing although point charges were given"))
+    # effective core potentials: written for exactly the elements with Z >= ECP.min_atomic_number
+    if res.get("ecp") and prog in ("qchem", "nwchem", "g09", "g16"):
+        E = res["ecp"]
+        want_el = sorted(l for l, z in E["z"].items() if z >= E["min_z"])
+        Lm = res["files"][res["main"]].split("\n")
+        got_el, where = None, ""
+        if prog == "qchem":
+            has = any(ln.split()[:1] == ["ecp"] and ln.split()[1:] == E["name"].split() for ln in Lm)
+            got_el = want_el if has == bool(want_el) else ([] if want_el else ["<ecp line present>"])
+            where = "$rem `ecp` line"
+        elif prog == "nwchem":
+            got_el, inb = [], False
+            for ln in Lm:
+                t = ln.split()
+                if t == ["ecp"]:
+                    inb = True
+                elif inb and t == ["end"]:
+                    inb = False
+                elif inb and len(t) >= 3 and t[1] == "library":
+                    got_el.append(t[0] if " ".join(t[2:]) == E["name"] else t[0] + "?")
+            got_el, where = sorted(got_el), "`ecp ... end` block"
+        else:
+            route = next((ln for ln in Lm if ln.startswith("#")), "")
+            gbs = res["files"].get("basis.gbs", "")
+            secs = [b for b in gbs.split("\n\n") if b.strip()]
+            got_el = sorted(secs[-1].split("\n")[0].split()[:-1]) if len(secs) >= 2 else []
+            if ("genecp" in route.lower().split()) != bool(want_el) or (want_el and E["name"] not in gbs):
+                got_el = got_el + ["<genecp/route mismatch>"]
+            where = "genecp + basis.gbs ECP section"
+        if got_el != want_el:
+            F.append((f"{site}|ecp-threshold", f"ECP {E['name']} (min_atomic_number {E['min_z']}), atoms {E['z']}: the {where} covers "
+                      f"{got_el}, elements with Z >= {E['min_z']} are {want_el}"))
     # keywords
     hay = " ".join(res["files"].values()).lower() + " " + " ".join(p for p in params if p).lower()
     haywords = set(words_of(hay))
@@ -1746,6 +1784,14 @@ def all_cases(ctx, full):
     for prog in ("xtb", "mopac", "orca", "g09", "qchem"):                # optimisation cycle limit
         specs.append({**common, "prog": prog, "atoms": [list(a) for a in base], "kwtype": "opt", "max_cycles": 7, "dist": [],
                       "mem_unit": "MB"})
+    # atoms exactly at / just below / just above the ECP threshold (default 37 = Rb; custom 35 = Br)
+    zof = {"Se": 34, "Br": 35, "Kr": 36, "Rb": 37, "Sr": 38, "C": 6, "H": 1}
+    for prog in ("qchem", "nwchem", "g09", "g16", "orca"):
+        for heavy, ecp_min in (("Kr", None), ("Rb", None), ("Sr", None), ("Se", 35), ("Br", 35)) + ((("Kr", 35), ("Rb", 38)) if full else ()):
+            at = [["C", 0.0, 0.0, 0.0], ["H", 1.09, 0.0, 0.0], [heavy, -1.2, 1.5, 0.25]]
+            ne = sum(zof[a[0]] for a in at)
+            specs.append({**common, "prog": prog, "atoms": at, "kwtype": "sp", "dist": [], "mult": 1 + ne % 2, "molecule": False,
+                          "ecp_min": ecp_min, "mem_unit": "MB"})
     # TS optimisations of solvated species: multi-job / multi-block inputs (Q-Chem: three jobs; ORCA: extra %geom block)
     for prog in PROGS:
         for src, solvent in (("default", "water"), ("custom", "dichloromethane")) + ((("default", "acetonitrile"),) if full else ()):
